@@ -88,6 +88,10 @@ func (r *Raft) onRequest(req request, c *conn) (result rpcResult, err error) {
 	case *installSnapReq:
 		return r.onInstallSnapRequest(req, c)
 	case *timeoutNowReq:
+		if req.term < r.term {
+			// (held up somewhere: the transfer it belongs to is over)
+			return staleTerm, nil
+		}
 		return r.onTimeoutNowRequest()
 	default:
 		panic(fmt.Errorf("[BUG] raft.onRequest(%T)", req))
